@@ -31,6 +31,10 @@ class Infeasible(Exception):
     pass
 
 
+class OpaqueRead(Unsupported):
+    """The code under analysis reads the content of a byte string that is modelled without content."""
+
+
 class DepthExceeded(Exception):
     pass
 
@@ -1020,6 +1024,13 @@ def binop(op, a, b):
         lt = (x < y) if signed else z3.ULT(x, y)
         return Sc("i8", z3.If(lt, z3.BitVecVal(-1, 8), z3.If(x == y, z3.BitVecVal(0, 8), z3.BitVecVal(1, 8))),
                   enum="Ordering")
+    if op in ("Shl", "ShlUnchecked", "Shr", "ShrUnchecked"):
+        # MIR shifts mask the amount to the width of the left operand (the overflow check, when
+        # enabled, is a separate assert in the MIR)
+        amt = y & z3.BitVecVal(x.size() - 1, x.size())
+        if op.startswith("Shl"):
+            return Sc(ty, x << amt)
+        return Sc(ty, (x >> amt) if signed else z3.LShR(x, amt))
     raise Unsupported("symbolic binop " + op)
 
 
